@@ -51,8 +51,25 @@ def run_raw(sc, oracle_classes, judged=None, want_explicit=True):
                 o.on_constructed()
                 o.after_call("construct")
             K = None
+            other = {}
             for k, op in enumerate(sc["ops"][: sc["rounds"]]):
                 ctx.round = k + 1
+                if op[0] == "other":
+                    # the neighbour fault for raw partitions: another partition of the same class, of dimension op[1], on its own
+                    # box, lives in the same process and splits a cell now and then (state kept outside the instances shows here)
+                    d2 = int(op[1])
+                    if d2 not in other:
+                        other[d2] = call("neighbour-construct", engine.plain_partition(sc["partition"]),
+                                         domain=[[-1.0 - j, 2.5 + j] for j in range(d2)])
+                    o2 = other[d2]
+                    leaves2 = [n for layer in o2.get_node_list() for n in layer if n.get_children() is None]
+                    if leaves2 and sum(len(layer) for layer in o2.get_node_list()) < 400:
+                        n2 = leaves2[min(int(op[2] * len(leaves2)), len(leaves2) - 1)]
+                        call("neighbour-make_children", o2.make_children, n2, newlayer=(n2.get_depth() >= o2.get_depth()))
+                        ctx.stats["raw:neighbour-partition-splits"] += 1
+                    ctx.completed = k + 1
+                    done = k + 1
+                    continue
                 if op[0] == "deepen":
                     layer = [s for s in ps.order if s.depth == ps.max_depth]
                     partial = any(s.children is not None for s in ps.order if s.depth == ps.max_depth - 1) and \
@@ -100,6 +117,7 @@ def run_raw(sc, oracle_classes, judged=None, want_explicit=True):
     res.probes = ctx.probes
     res.fired = seam.fired
     res.fired["rng-calls"] = seam.calls
+    res.fired["neighbour-partition"] = ctx.stats.get("raw:neighbour-partition-splits", 0)
     res.sites = seam.sites
     res.digest = ctx.digest()
     res.cells = ctx.nnodes
@@ -139,7 +157,7 @@ def shrink_ops(sc):
             break
         size //= 2
     for k, op in enumerate(ops):
-        if op[0] != "deepen" and op[1] != 0.0:
+        if op[0] not in ("deepen", "other") and op[1] != 0.0:
             c = copy.deepcopy(sc)
             c["ops"] = [list(o) for o in ops]
             c["ops"][k][1] = 0.0
